@@ -506,6 +506,8 @@ def run_scenario(sc, chooser=None, seed=0, max_steps=30000):
                         if id(x) in zid_of:
                             todo.append(zid_of[id(x)])
             for z, o in live.items():
+                if z not in reach:
+                    continue        # garbage the program cannot reach (a cycle only the cyclic collector frees) is not a long-lived signal
                 hooks = sum(1 for j in jobs_of(o) if isinstance(getattr(j, "target", j), OrSignal))
                 owners = sum((1 if info[c]["ops"][0] == z else 0) + (1 if info[c]["ops"][1] == z else 0)
                              for c in reach if c in info and info[c]["kind"] == "or" and not truth[c])
